@@ -655,100 +655,95 @@ func (tx *Tx) findRangeOnDisk(fID, rootOff int64, start, end, newStart, newEnd [
 	return
 }
 
+// readActiveRecords reads the entries the given records of the active b+ tree index point to.
+func (tx *Tx) readActiveRecords(records Records) (es Entries, err error) {
+	for _, r := range records {
+		path := tx.db.getDataPath(r.H.fileID)
+		df, err := NewDataFile(path, tx.db.opt.SegmentSize, tx.db.opt.RWMode)
+		if err != nil {
+			return nil, err
+		}
+		item, err := df.ReadAt(int(r.H.dataPos))
+		df.rwManager.Close()
+		if err != nil {
+			return nil, fmt.Errorf("HintIdx r.Hi.dataPos %d, err %s", r.H.dataPos, err)
+		}
+		es = append(es, item)
+	}
+
+	return es, nil
+}
+
+// pageEntries applies offsetNum and limitNum to the live entries of a scan.
+func pageEntries(es Entries, offsetNum int, limitNum int) (Entries, int) {
+	if offsetNum < 0 {
+		offsetNum = 0
+	}
+	if offsetNum > len(es) {
+		offsetNum = len(es)
+	}
+	es = es[offsetNum:]
+	if limitNum > 0 && len(es) > limitNum {
+		es = es[:limitNum]
+	}
+
+	return es, offsetNum
+}
+
+// prefixScanByHintBPTSparseIdx collects every candidate first, the active file
+// before the sealed files and those from the newest to the oldest, so that
+// processEntriesScanOnDisk keeps the newest version of each key and drops the
+// deleted and expired ones. offsetNum and limitNum are applied to what is
+// left: a key that is dead, or an old version of a key, consumes neither.
 func (tx *Tx) prefixScanByHintBPTSparseIdx(bucket string, prefix []byte, offsetNum int, limitNum int) (es Entries, off int, err error) {
 	newPrefix := getNewKey(bucket, prefix)
-	records, voff, err := tx.db.ActiveBPTreeIdx.PrefixScan(newPrefix, offsetNum, limitNum)
+	records, _, err := tx.db.ActiveBPTreeIdx.PrefixScan(newPrefix, 0, ScanNoLimit)
 	if err == nil && records != nil {
-		for _, r := range records {
-			path := tx.db.getDataPath(r.H.fileID)
-			df, err := NewDataFile(path, tx.db.opt.SegmentSize, tx.db.opt.RWMode)
-			if err != nil {
-				df.rwManager.Close()
-				return nil, off, err
-			}
-			if item, err := df.ReadAt(int(r.H.dataPos)); err == nil {
-				es = append(es, item)
-				if len(es) == limitNum {
-					off = voff
-					return es, off, nil
-				}
-			} else {
-				df.rwManager.Close()
-				return nil, off, fmt.Errorf("HintIdx r.Hi.dataPos %d, err %s", r.H.dataPos, err)
-			}
-			df.rwManager.Close()
-		}
-	}
-
-	leftNum := limitNum - len(es)
-	if limitNum == ScanNoLimit {
-		// no limit: the files on disk always take part
-		leftNum = ScanNoLimit
-	}
-	if leftNum > 0 || limitNum == ScanNoLimit {
-		entries, voff, err := tx.prefixScanOnDisk(bucket, prefix, offsetNum, leftNum)
-		if err != nil {
+		if es, err = tx.readActiveRecords(records); err != nil {
 			return nil, off, err
 		}
-		es = append(es, entries...)
-		off = voff
 	}
 
-	off = voff
+	entries, _, err := tx.prefixScanOnDisk(bucket, prefix, 0, ScanNoLimit)
+	if err != nil {
+		return nil, off, err
+	}
+	es = append(es, entries...)
 
+	es, off = pageEntries(processEntriesScanOnDisk(es), offsetNum, limitNum)
 	if len(es) == 0 {
 		return nil, off, ErrPrefixScan
 	}
 
-	return processEntriesScanOnDisk(es), off, nil
+	return es, off, nil
 }
 
+// prefixSearchScanByHintBPTSparseIdx is prefixScanByHintBPTSparseIdx for the
+// keys whose remainder matches the regular expression.
 func (tx *Tx) prefixSearchScanByHintBPTSparseIdx(bucket string, prefix []byte, reg string, offsetNum int, limitNum int) (es Entries, off int, err error) {
 	newPrefix := getNewKey(bucket, prefix)
-	records, voff, err := tx.db.ActiveBPTreeIdx.PrefixSearchScan(newPrefix, reg, offsetNum, limitNum)
+	records, _, err := tx.db.ActiveBPTreeIdx.PrefixSearchScan(newPrefix, reg, 0, ScanNoLimit)
+	if err == ErrBadRegexp {
+		return nil, off, err
+	}
 	if err == nil && records != nil {
-		for _, r := range records {
-			path := tx.db.getDataPath(r.H.fileID)
-			df, err := NewDataFile(path, tx.db.opt.SegmentSize, tx.db.opt.RWMode)
-			if err != nil {
-				df.rwManager.Close()
-				return nil, off, err
-			}
-			if item, err := df.ReadAt(int(r.H.dataPos)); err == nil {
-				es = append(es, item)
-				if len(es) == limitNum {
-					off = voff
-					return es, off, nil
-				}
-			} else {
-				df.rwManager.Close()
-				return nil, off, fmt.Errorf("HintIdx r.Hi.dataPos %d, err %s", r.H.dataPos, err)
-			}
-			df.rwManager.Close()
-		}
-	}
-
-	leftNum := limitNum - len(es)
-	if limitNum == ScanNoLimit {
-		// no limit: the files on disk always take part
-		leftNum = ScanNoLimit
-	}
-	if leftNum > 0 || limitNum == ScanNoLimit {
-		entries, voff, err := tx.prefixSearchScanOnDisk(bucket, prefix, reg, offsetNum, leftNum)
-		if err != nil {
+		if es, err = tx.readActiveRecords(records); err != nil {
 			return nil, off, err
 		}
-		es = append(es, entries...)
-		off = voff
 	}
 
-	off = voff
+	entries, _, err := tx.prefixSearchScanOnDisk(bucket, prefix, reg, 0, ScanNoLimit)
+	if err != nil {
+		return nil, off, err
+	}
+	es = append(es, entries...)
 
+	es, off = pageEntries(processEntriesScanOnDisk(es), offsetNum, limitNum)
 	if len(es) == 0 {
 		return nil, off, ErrPrefixSearchScan
 	}
 
-	return processEntriesScanOnDisk(es), off, nil
+	return es, off, nil
 }
 
 // PrefixScan iterates over a key prefix at given bucket, prefix and limitNum.
